@@ -147,7 +147,9 @@ func vRecognise(rec []byte) vRefHello {
 	return r
 }
 
-func vCheckPassthrough(rec []byte, keys []Key, strict bool) {
+func vCheckPassthrough(rec []byte, keys []Key, strict bool) { vCheckPassthroughTLS(rec, keys, strict, true) }
+
+func vCheckPassthroughTLS(rec []byte, keys []Key, strict, tlsOracle bool) {
 	tr := newVTransport(rec)
 	var opts []Option
 	if keys != nil {
@@ -183,6 +185,20 @@ func vCheckPassthrough(rec []byte, keys []Key, strict bool) {
 			for i := range al {
 				if i < len(ref.alpn) {
 					vAssert(vBytesEq([]byte(al[i]), ref.alpn[i]), "ALPN entry equals the reference extraction")
+				}
+			}
+			// an independent TLS stack (crypto/tls's server) fed the forwarded bytes
+			if !tlsOracle {
+				return
+			}
+			if tok, tsni, talpn := vTLSExtract(got); tok {
+				vReach("tls-agrees")
+				vAssert(tsni == c.ServerName(), "ServerName equals what crypto/tls extracts from the forwarded bytes")
+				vAssert(len(talpn) == len(al), "ALPN list equals what crypto/tls extracts (length)")
+				for i := range talpn {
+					if i < len(al) {
+						vAssert(talpn[i] == al[i], "ALPN list equals what crypto/tls extracts")
+					}
 				}
 			}
 		}
@@ -252,7 +268,7 @@ func verifC05Structured() {
 	}
 	h := vHello{version: vUint16(), random: vBytes(32), sid: vBytes(vInt(0, 2)), suites: vBytes(2 * vInt(1, 2)), comp: []byte{0}, exts: exts}
 	vAssume(exts[len(exts)-1].typ != 0xfd00 && exts[len(exts)-2].typ != 0xfd00)
-	vCheckPassthrough(h.record(), keys, true)
+	vCheckPassthroughTLS(h.record(), keys, true, vTier() > 0) // crypto/tls oracle in the thorough tier (x7 paths)
 }
 
 // verifC05Later: when an ECH extension was presented but not accepted (GREASE,
